@@ -45,11 +45,24 @@ def check(pid, tier):
     if len(cfgs) > cap:
         cfgs = random.Random(seed()).sample(cfgs, cap)
         ev.cov["exhaustive"] = False
+    rn = check_sched.mc(["pairL"] if tier != "quick" else ["ring2"], "nocompose", "impl", ["NoFalseCycle"], ["OnlyAllowedChoices"])
+    ev.cov["runs"].append({"kind": "negative-control", "impl": "nocompose", "violated": rn.violated, **rn.summary()})
+    if rn.ok:
+        machinery.append("negative control nocompose produced no counterexample")
     traces = [t for t in run_configs([(c, None) for c in cfgs]) if "harness_error" not in t]
     acc, tot, bad, gen, _ = tlc.validate("Sched_Trace", traces)
     ev.add_traces("Sched_Trace/delay families", acc, tot, gen)
+    ASSUMED = {"choice", "avail", "served", "false-cycle", "false-cycle-zone"}
     for k, verdict in sorted(bad.items()):
-        if sched_property(verdict, traces[k]["cfg"]) != pid:
+        p = sched_property(verdict, traces[k]["cfg"])
+        # "the shifted time is both what the driver assumes when scheduling and what is actually
+        # requested": a driver that assumes another time shows up as an unneeded / premature update
+        # or a false cycle on links that carry delay adapters
+        if verdict.split("@")[0] in ASSUMED and any(
+                a["k"] in ("fixed", "topull", "topush") for c in traces[k]["cfg"]["comps"]
+                for lk in c["ins"] for a in lk["chain"]):
+            p = pid
+        if p != pid:
             continue
         path = save_replay(pid, {"kind": "sched-trace", "verdict": verdict, "trace": traces[k]}) if len(violations) < 10 else "(not saved)"
         violations.append((pid, f"trace rejected: {verdict}", path))
